@@ -77,8 +77,8 @@ def midFuncs (env : Env) (file : AFile) : List GFunc :=
   ((GFile.mk (refRuntime (collectRuntimeTypes env file).refs)).funcs ++
   ((GFile.mk (tupleStructs (collectRuntimeTypes env file).tuples)).funcs ++
   ((GFile.mk (genTypeDefinition env)).funcs ++
-  ((GFile.mk (genDynTypeDefinitions env (collectDynRequirements file))).funcs ++
-   (GFile.mk (genDynHelperFns env (collectDynRequirements file))).funcs))))
+  ((GFile.mk (genDynTypeDefinitions env (collectDynRequirements env file))).funcs ++
+   (GFile.mk (genDynHelperFns env (collectDynRequirements env file))).funcs))))
 
 /-- the functions of the emitted file: the runtime first, the compiled functions near the end -/
 theorem funcs_goFilePre (env : Env) (file : AFile) (n : Nat) :
@@ -349,13 +349,13 @@ theorem link_of_closedD {env : Env} {file : AFile} {n : Nat} {G : List String} (
       fun r hr => hnone r (hsub r hr)⟩
   · -- the constructor, the wrappers and the two structs of an admissible vtable
     have hent := dynTable_spec hd
-    have hvt : (tr, forTy) ∈ (collectDynRequirements file).vtables := by
+    have hvt : (tr, forTy) ∈ (collectDynRequirements env file).vtables := by
       unfold dynTable at hd
       split at hd
       · exact (List.mem_filter.mp hd).1
       · cases hd
     obtain ⟨m1, m2⟩ := genDynHelperFns_mem (env := env) hvt
-    have hmid : ∀ g, g ∈ (GFile.mk (genDynHelperFns env (collectDynRequirements file))).funcs → g ∈ (goFilePreSt env file n).1.funcs := by
+    have hmid : ∀ g, g ∈ (GFile.mk (genDynHelperFns env (collectDynRequirements env file))).funcs → g ∈ (goFilePreSt env file n).1.funcs := by
       intro g hg
       rw [hfuncs]
       refine List.mem_append_right _ (List.mem_append_left _ ?_)
